@@ -623,7 +623,8 @@ vm_execute_op_mul_type(double, double)
             return;                                             \
         }                                                       \
                                                                 \
-        addr = gc_alloc_##never_type(machine->collector, a / b);  \
+        /* a / -1 is -a; dividing the most negative integer by -1 traps on x86 */ \
+        addr = gc_alloc_##never_type(machine->collector, (b == -1) ? -a : a / b);  \
                                                                 \
         entry.type = GC_MEM_ADDR;                               \
         entry.addr = addr;                                      \
@@ -654,7 +655,8 @@ vm_execute_op_div_type(double, double)
             return;                                             \
         }                                                       \
                                                                 \
-        addr = gc_alloc_##never_type(machine->collector, a % b);         \
+        /* a % -1 is 0; the most negative integer % -1 traps on x86 */  \
+        addr = gc_alloc_##never_type(machine->collector, (b == -1) ? 0 : a % b);         \
                                                                 \
         entry.type = GC_MEM_ADDR;                               \
         entry.addr = addr;                                      \
